@@ -10,8 +10,11 @@ From Coq Require Import Lia.
    offset-addressed) and count queries on any number of topics: the results the model
    produces are accepted by the queue specification — each consuming read returns exactly the
    next not-yet-returned appended entries of its topic, in order, and returns nothing only
-   when nothing is left.  Admissible = outside the known classes (an entry larger than
-   MAX_ALLOC, a topic name that does not fit the header) and without restarts (C06). *)
+   when nothing is left.  EVERY append and batch is admissible, including the ones the engine
+   rejects (entry larger than MAX_ALLOC, topic name that does not fit the entry header, more
+   than 2000 entries, over the byte limit, empty batch): a rejected operation changes nothing.
+   (Before fix 47d4d63 an oversize append made the consumer receive earlier entries twice.)
+   Restarts are C06's subject. *)
 Theorem c01_outside_known : forall (c : Cfg) (m : mode) (be : backend) (ops : list op),
   cfg_ok c -> Forall (op_ok c) ops ->
   N.of_nat (length (offered_all ops)) <= u64_max -> sum_len (offered_all ops) <= u64_max ->
@@ -30,13 +33,13 @@ Theorem c01_real : forall m be ops, Forall (op_ok real_cfg) ops ->
   c01_ok (trace (env_of real_cfg m be) init ops) = true.
 Proof. intros. apply c01_outside_known; auto. exact real_cfg_ok. Qed.
 
-(* the known class is real: an append that is refused for its size (Err) makes the consumer
-   receive an earlier entry twice *)
+(* a rejected append leaves no trace: the regression witness of fix 47d4d63 *)
 Definition t1 : topic := {| t_id := 1; t_nlen := 2 |}.
 Definition e (p l : N) : entry := {| e_pid := p; e_len := l |}.
-Theorem c01_refuted_oversize_append :
-  c01_ok (trace (env_of small_cfg Strict Fd) init
-            [OAppend t1 (e 0 100); OAppend t1 (e 1 20000); ORead t1 true; ORead t1 true]) = false.
+Example c01_oversize_append_leaves_no_trace :
+  map snd (trace (env_of small_cfg Strict Fd) init
+            [OAppend t1 (e 0 100); OAppend t1 (e 1 20000); ORead t1 true; ORead t1 true])
+  = [ROk; RErr EInvalidInput; REntry (out_of (e 0 100)); RNone].
 Proof. vm_compute. reflexivity. Qed.
 
 (* non-vacuity: an admissible history with block rotation, an empty payload, both read APIs *)
@@ -50,7 +53,7 @@ Example c01_witness :
      REntries [out_of (e 2 2000); out_of (e 3 127); out_of (e 4 3500)]; RNone].
 Proof.
   split.
-  - repeat constructor; vm_compute; intros; discriminate.
+  - repeat constructor.
   - vm_compute. reflexivity.
 Qed.
 
@@ -60,4 +63,3 @@ Check c01_outside_known : forall (c : Cfg) (m : mode) (be : backend) (ops : list
   c01_ok (trace (env_of c m be) init ops) = true.
 Print Assumptions c01_outside_known.
 Print Assumptions c01_real.
-Print Assumptions c01_refuted_oversize_append.
